@@ -143,7 +143,7 @@ def oracle_spacing(case):
 def repeat_strategy(versions):
     @st.composite
     def strat(draw):
-        v = draw(st.sampled_from(versions))
+        v = draw(st.sampled_from([x for x in versions if gen_hed.pool(x).extendable]))
         pl = gen_hed.pool(v)
         m = pl.m
         node = pl.extendable[draw(st.integers(0, len(pl.extendable) - 1))]
